@@ -6,6 +6,7 @@ package engine
 import (
 	"fmt"
 	"io"
+	"os"
 	"math/rand"
 	"sort"
 	"time"
@@ -216,6 +217,10 @@ func NewRun(k Knobs, seed int64, rep *monitor.Report, caseID string, trace io.Wr
 	if !k.StatelessClock {
 		env.GCLag = pick(master, 0, 0, 0, 1, 2)
 	}
+	// every second history builds its controllers with the real NewController/NewClient (informers listing once
+	// through a REST client served from the store), the others with the mirroring hook constructor
+	realCtor := master.Intn(2) == 0
+	env.RealConstructor = (realCtor && !k.StatelessClock) || os.Getenv("VERIF_REAL_CTOR") != ""
 	run := &Run{K: k, Env: env, Master: master, Rep: rep, Trace: trace, scanInterval: 60 * time.Second, external: map[int]string{}}
 	if master.Float64() < k.PDebugLog {
 		sim.SetLogLevel(log.DebugLevel)
